@@ -125,8 +125,46 @@ func HWalk() {
 	if nd.Param("LEAN", 0) == 1 {
 		g = &selgen.Gen{FieldLen: 1, Fields: 1, Ops: "afir|R", Subsets: true}
 	}
+	gr := graph.New("g", graphs[nd.Choose("graph", nd.Param("G", len(graphs)))])
+	g.StopLinks = linksOf(gr.V, nil)
 	s := g.Top(nd.Param("D", 2))
 	boundRanges(s)
-	gr := graph.New("g", graphs[nd.Choose("graph", nd.Param("G", len(graphs)))])
 	check(s, gr)
+}
+
+var stopGraphs = []string{
+	"[<[tn]>{c<{cs1}>}n]",
+	"{c<{c<[tn]>cn}>cs1}",
+	"[<[t]><[t]>]",
+}
+
+// HStopAt: a recursion with a stop-at-link condition over sequences of up to two steps before the
+// edge: the condition applies at every step under the recursion, not only where the edge sits.
+func HStopAt() {
+	g := &selgen.Gen{FieldLen: 1, Fields: 1, Ops: "afi|"}
+	gr := graph.New("g", stopGraphs[nd.Choose("graph", nd.Param("G", len(stopGraphs)))])
+	links := linksOf(gr.V, nil)
+	g.MaxDepth = 3
+	s := &selgen.Sel{Op: 'R'}
+	if nd.Choose("lim", 2) == 1 {
+		s.LimitNone = true
+	} else {
+		s.Depth = nd.Int64("depth")
+	}
+	s.StopAt = links[nd.Choose("stop", len(links))]
+	s.Subs = []*selgen.Sel{g.Gen(nd.Param("D", 2), true)}
+	boundRanges(s)
+	check(s, gr)
+}
+
+// linksOf: every link value of the graph (followed through blocks), candidates for stop-at conditions.
+func linksOf(v *refval.V, acc []*refval.V) []*refval.V {
+	if v.K == refval.Link {
+		acc = append(acc, v)
+		return linksOf(v.T, acc)
+	}
+	for _, c := range v.L {
+		acc = linksOf(c, acc)
+	}
+	return acc
 }
